@@ -186,6 +186,38 @@ def _default_is_conservative(ix, cfg, opname):
     return same, reg.factory
 
 
+def stepping_keeps_increment_form(rep: Report, ix) -> None:
+    """"Consequently ... simulations keep the integral constant at every step, for any step size and solver": with
+    sum_cells V*L(u) = 0 (rows above) a step conserves iff it has the increment form  u_new = u + dt * (combination of
+    right-hand-side evaluations)  -- weight of the old state exactly 1.  The one-step maps are extracted by the C06 engine
+    (uninterpreted rhs); the stability-function / fixed-point / recursion obligations of every fixed-step scheme, for every
+    explicit_fraction, are re-used here: a scheme whose converged step is not the textbook scheme (e.g. state weights
+    summing to 1 + alpha) multiplies the integral at every step."""
+    from . import c06
+
+    sub = Report("C05", rep.tier, "proof", "sub-report")
+    for name, (rel, clsname, order, stab) in c06.SOLVERS.items():
+        c06.check_explicit(sub, ix, name, rel, clsname, order, stab)
+    c06.check_implicit(sub, ix, "implicit-euler", "pde/solvers/implicit.py", "ImplicitSolver", "_make_single_step_fixed_dt_deterministic", 1 / (1 - c06.Z))
+    c06.check_implicit(sub, ix, "crank-nicolson", "pde/solvers/crank_nicolson.py", "CrankNicolsonSolver", "_make_single_step_fixed_dt", (1 + c06.Z / 2) / (1 - c06.Z / 2))
+    c06.check_adams_bashforth(sub, ix)
+    for st in sub.analysed.get("steppers", []):
+        rep.saw("steppers (increment form)", st)
+    n = 0
+    for o in sub.obligations:
+        n += 1
+    bad = sub.findings
+    rep.oblige(f"one-step maps of euler / implicit / crank-nicolson / adams-bashforth have the conservative increment form ({n} obligations of the C06 extraction)", not bad, [f.key for f in bad[:3]])
+    for f in bad:
+        rep.violation(
+            "C05.step-not-increment-form",
+            f.construct,
+            f"the extracted one-step map is not the scheme's increment form u + dt*(...): {f.message[:300]} -- the integral of a conserved field changes at every step",
+            line=f.line,
+        )
+    rep.floor("obligations on one-step maps (C06 extraction)", n, 6)
+
+
 def check(tier: str) -> Report:
     rep = Report("C05", tier, "proof", "column-sum identities on extracted stencil tables with extracted cell volumes and boundary formulas")
     rep.explanation = (
@@ -248,6 +280,7 @@ def check(tier: str) -> Report:
             rep.sample({"row": tag, "stencil": res["stencil"], "column_sums": res["sums"][:4]})
     nine_point_rows(rep, ix)
     rep.floor("conservation rows", len(rep.analysed.get("rows", [])), 25)
+    stepping_keeps_increment_form(rep, ix)
     rep.assumptions += [
         "cell volume = product over axes of cell_volume_data (GridBase.cell_volumes uses reduce(np.outer, ...); exactness of the factors is C12)",
         "divergence is checked for the default central method only (one-sided variants are not conservative with v_n=0 ghost cells and are not claimed)",
